@@ -47,7 +47,7 @@ class C10(Check):
     max_discard = 0.7
 
     def strata(self, tier):
-        return [('S-func', 4), ('S-run-euler', 4), ('S-run-scipy', 2), ('S-edges', 2), ('S-edges-vec', 1), ('S-torch', 1)]
+        return [('S-func', 4), ('S-run-euler', 4), ('S-run-scipy', 2), ('S-edges', 2), ('S-edges-vec', 1), ('S-torch', 1), ('S-edges-run', 2)]
 
     def prepare_parent(self):
         try:
@@ -61,7 +61,7 @@ class C10(Check):
         # rows are stored every m-th step: the history must still be fed at every solver step with that step's time
         m = rng.choice([1, 1, 2, 4, 5])
         steps = m * rng.randint(max(2, 20 // m), 80 // m)
-        edges_mode = stratum in ('S-edges', 'S-edges-vec')
+        edges_mode = stratum in ('S-edges', 'S-edges-vec', 'S-edges-run')      # S-edges-run: delayed edges, adaptive solver, run()
         libs = ('lin', 'leak', 'integ') if edges_mode else rng.choice([('dd',), ('ddt',), ('dd', 'lin'), ('ddt', 'dd', 'lin'),
                                                                          ('cdd',)])
 
@@ -107,6 +107,9 @@ class C10(Check):
                                      {'method': 'RK45', 'rtol': 1e-6}])}
         if stratum == 'S-edges':
             cfg['vectorize'] = False
+        if stratum == 'S-edges-run':
+            cfg['solver'] = 'scipy'
+            cfg['vectorize'] = rng.random() < 0.6
         if 'cdd' in libs and cfg['level'] == 'run' and cfg['solver'] == 'scipy':
             cfg['solver'] = 'euler'      # scipy's dopri5 driver is real-valued: complex delayed models go through euler/heun
         return {'spec': spec, 'cfg': cfg}
